@@ -293,6 +293,11 @@ func (g *Gen) callEffects(caller *ssa.Function, c *ssa.CallCommon, ms *ModSet, w
 			ct = g.cs.ByKey["functype "+n.Obj().Pkg().Path()+" "+n.Obj().Name()]
 		}
 		if ct == nil {
+			if sig, ok := c.Value.Type().Underlying().(*types.Signature); ok && caller.Pkg != nil {
+				ct = g.cs.ByKey["functype "+caller.Pkg.Pkg.Path()+" "+types.TypeString(sig, func(p *types.Package) string { return p.Name() })]
+			}
+		}
+		if ct == nil {
 			addAll("call of a function value without contract")
 			return changed
 		}
